@@ -724,20 +724,25 @@ class Engine:
             za, zb = zterm(a, STR), zterm(b, STR)
             return {ast.Lt: za < zb, ast.LtE: za <= zb, ast.Gt: zb < za, ast.GtE: zb <= za}[type(op)]
         if ta == 'tuple' and tb == 'tuple':
-            # lexicographic
-            n = min(len(a), len(b))
-            strict = isinstance(op, (ast.Lt, ast.Gt))
-            lt = ast.Lt() if isinstance(op, (ast.Lt, ast.LtE)) else ast.Gt()
-            res = (len(a) < len(b)) if isinstance(op, ast.Lt) else (len(a) <= len(b)) if isinstance(op, ast.LtE) \
-                else (len(a) > len(b)) if isinstance(op, ast.Gt) else (len(a) >= len(b))
-            res = z3.BoolVal(res)
-            for i in reversed(range(n)):
+            # lexicographic, evaluated lazily: later components are only compared when the earlier ones can be equal
+            strict_lt = ast.Lt() if isinstance(op, (ast.Lt, ast.LtE)) else ast.Gt()
+
+            def lex(i):
+                if i >= len(a) or i >= len(b):
+                    r = (len(a) < len(b)) if isinstance(op, ast.Lt) else (len(a) <= len(b)) if isinstance(op, ast.LtE) \
+                        else (len(a) > len(b)) if isinstance(op, ast.Gt) else (len(a) >= len(b))
+                    return r
                 e = self.equals(a[i], b[i])
-                l = self.order(lt, a[i], b[i], node)
-                e = z3.BoolVal(e) if isinstance(e, bool) else e
+                if e is True:
+                    return lex(i + 1)
+                l = self.order(strict_lt, a[i], b[i], node)
+                if e is False:
+                    return l
+                rest = lex(i + 1)
                 l = z3.BoolVal(l) if isinstance(l, bool) else l
-                res = z3.Or(l, z3.And(e, res))
-            return res
+                rest = z3.BoolVal(rest) if isinstance(rest, bool) else rest
+                return z3.Or(l, z3.And(e, rest))
+            return lex(0)
         raise Unsupported('ordering on %s,%s' % (ta, tb))
 
     def contains(self, container, item, node=None):
@@ -792,6 +797,10 @@ class Engine:
     def ite(self, c, a, b):
         if isinstance(c, bool):
             return a if c else b
+        if a is b or (a is None and b is None):
+            return a
+        if not is_sym(a) and not is_sym(b) and isinstance(a, (int, str, bool)) and type(a) is type(b) and a == b:
+            return a
         ta, tb = pytype(a), pytype(b)
         if ta == 'tuple' and tb == 'tuple' and len(a) == len(b):
             return tuple(self.ite(c, x, y) for x, y in zip(a, b))
@@ -1070,7 +1079,14 @@ class Engine:
             symbolic = (isinstance(src, SymRange) and src.concrete() is None) or \
                 (isinstance(src, SymSeq) and not z3.is_int_value(z3.simplify(src.n)))
             if symbolic:
-                return self.symbolic_listcomp(node, src, fr)
+                saved_pure = self.pure
+                try:
+                    return self.symbolic_listcomp(node, src, fr)
+                except Unsupported:
+                    self.pure = saved_pure
+                    if self.pure or not isinstance(src, SymRange):
+                        raise
+                    # elements that are not scalars (objects, None ...): unroll by case split instead
         out = []
         self._comp(node.generators, 0, fr, lambda f: out.append(self.eval(node.elt, f)))
         return out
@@ -1136,6 +1152,8 @@ class Engine:
         # spec special forms
         if isinstance(node.func, ast.Name) and node.func.id in SPEC_FORMS and node.func.id not in fr.env:
             return SPEC_FORMS[node.func.id](self, node, fr)
+        if isinstance(node.func, ast.Name) and node.func.id == 'locals' and not node.args:
+            return {k: v for k, v in fr.env.items() if '!' not in k}
         fn = self.eval(node.func, fr)
         args = []
         for a in node.args:
@@ -1169,6 +1187,12 @@ class Engine:
             if sa is not _MISSING:
                 return sa
             raise PyRaise('AttributeError', '%s has no attribute %s' % (base.cls, attr), node=node)
+        if isinstance(base, FuncRef):
+            if attr == 'cache_clear' and getattr(base, 'cached', False):
+                def clear(eng_, args, kwargs, _q=base.qualname):
+                    eng_.ghost.setdefault('lru', {})[_q] = []
+                return BoundMethod('cache_clear', clear)
+            raise PyRaise('AttributeError', "function has no attribute '%s'" % attr, node=node)
         if isinstance(base, ModRef):
             return self.loader.resolve_external(base.dotted + '.' + attr, self)
         if type(base).__name__ == 'RepoModRef':
@@ -1391,7 +1415,17 @@ class Engine:
             c = it.concrete()
             if c is not None:
                 return list(c)
-            raise Unsupported('iteration over a symbolic range needs a loop invariant')
+            if self.pure:
+                raise Unsupported('iteration over a symbolic range in a spec')
+            # bounded unrolling by case split on "has a k-th element"; the unwinding bound is an error, not a cut
+            items = []
+            k = 0
+            while self.branch(it.has(z3.IntVal(k))):
+                items.append(concretize(it.at(self, z3.IntVal(k))))
+                k += 1
+                if k > self.max_unroll:
+                    raise Unsupported('symbolic range unrolled more than %d times' % self.max_unroll)
+            return items
         if it is None:
             raise PyRaise('TypeError', "'NoneType' object is not iterable")
         if hasattr(it, 'vc_iter'):
@@ -1489,6 +1523,8 @@ class Engine:
         hook = self.loader.call_hook(f)
         if hook is not None:
             return hook(self, f, args, kwargs, node)
+        if getattr(f, 'cached', False) and not getattr(f, '_bypass_cache', False):
+            return self.call_cached(f, args, kwargs, node)
         fnode = f.node
         if isinstance(fnode, ast.Lambda):
             env = self.bind_args(fnode, args, kwargs, None, f.mod, f.closure)
@@ -1513,6 +1549,35 @@ class Engine:
         if is_gen:
             return GenResult(fr.yields)
         return ret
+
+    def call_cached(self, f, args, kwargs, node):
+        """functools.lru_cache on a repo function: ghost memo table keyed by (self, args, kwargs); a hit returns the
+        stored object (as CPython does); eviction is not modelled (it only forgets entries)."""
+        table = self.ghost.setdefault('lru', {}).setdefault(f.qualname, [])
+        env = self.bind_args(f.node, list(args), dict(kwargs), f.bound, f.mod, f.closure)
+        key = tuple(env[p.arg] for p in f.node.args.posonlyargs + f.node.args.args)
+        for k, v in table:
+            if len(k) != len(key):
+                continue
+            same = True
+            for a, b in zip(k, key):
+                if isinstance(a, Obj) or isinstance(b, Obj):
+                    e = a is b
+                else:
+                    e = self.equals(a, b)
+                if e is True:
+                    continue
+                if e is False or not self.branch(e):
+                    same = False
+                    break
+            if same:
+                self.ghost.setdefault('lru_hits', []).append(f.qualname)
+                return v
+        g = FuncRef(f.mod, f.node, f.qualname, bound=f.bound, cls=f.cls, closure=f.closure)
+        g._bypass_cache = True
+        v = self.call_function(g, args, kwargs, node)
+        table.append((key, v))
+        return v
 
     # ---- statements
     def exec_block(self, stmts, fr):
